@@ -37,6 +37,8 @@ func c14Alphabet() []seqSym {
 		sy("SET", "k1", "a", "EX", "1.73", "POINT", "7", "7"),
 		sy("SET", "k1", "a", "POINT", "7", "7"),
 		sy("SET", "k1", "b", "EX", "0.73", "STRING", `{"x":1}`),
+		sy("SET", "k0", "keep", "EX", "900.5", "POINT", "1", "1"), // an earlier-sorting collection whose deadline is far away
+		sy("SET", "k3", "z", "EX", "0.73", "POINT", "2", "2"),
 		sy("EXPIRE", "k1", "a", "0.73"),
 		sy("EXPIRE", "k1", "a", "2.73"),
 		sy("PERSIST", "k1", "a"),
